@@ -111,6 +111,65 @@ fn run_forms(rep: &Report, states: usize, core: bool, seed: u64) {
     });
 }
 
+/// source plane: the same operand forms written in assembler syntax (override without colon, optional
+/// displacement, random case / radix / white space) through the real Preprocessor; the emitted line is
+/// executed and judged against the reference of the *source* operand
+fn run_source(rep: &Report, states: usize, core: bool, seed: u64) {
+    let shapes: Vec<Mem> = mem_shapes(0, 0);
+    let jobs: Vec<(usize, usize)> = (0..shapes.len()).flat_map(|s| (0..KINDS.len()).map(move |k| (s, k))).collect();
+    par_for(jobs.len(), 4, |j| {
+        let (si, k) = jobs[j];
+        let mut rng = Rng::new(seed).fork(0xC04_8000 + j as u64);
+        let mut b = bench_with_labels(0x51 + (j % 7) as u32);
+        b.add_code_label("start", 0);
+        let mut agg = FailAgg::new();
+        let mut loc = Local::default();
+        for st in 0..states {
+            let mut m = shapes[si];
+            let d = if core { DISPS[(st * 5 + j) % DISPS.len()] } else { rand_disp(&mut rng) };
+            m.form = match m.form {
+                MemForm::Direct(_) => MemForm::Direct(if core { [0u16, 1, 0x1234, 0xFFFE, 0xFFFF][st % 5] } else { rng.hostile16() }),
+                MemForm::Based(r, _) => MemForm::Based(r, d),
+                MemForm::Indexed(r, _) => MemForm::Indexed(r, d),
+                // the optional displacement of the based-indexed form: present and absent
+                MemForm::BasedIndexed(bb, i, _) => MemForm::BasedIndexed(bb, i, if st % 2 == 0 { Some(d) } else { None }),
+                f => f,
+            };
+            let ins = make(k, m, &mut rng);
+            let mut sp = if st % 2 == 0 { Spell::plain() } else { Spell::random(rng.fork(st as u64)) };
+            let text = format!("start:\n{}\n", ins.src(&mut sp));
+            let a = match crate::asm::assemble(&text) {
+                Ok(a) => a,
+                Err(_) => {
+                    *loc.counters.entry("source forms rejected by the assembler (filed under C10)").or_insert(0) += 1;
+                    continue;
+                }
+            };
+            if a.code.len() != 1 {
+                *loc.counters.entry("source forms emitting != 1 line (filed under C11)").or_insert(0) += 1;
+                continue;
+            }
+            let pre = hostile_regs(&mut rng);
+            let probe = b.step(7, &a.code[0], &pre);
+            b.restore_mem();
+            if matches!(probe.0, ObsFlow::Rejected(_)) {
+                *loc.counters.entry("emitted lines rejected by the interpreter (filed under C10)").or_insert(0) += 1;
+                continue;
+            }
+            let kind = KINDS[k];
+            let out = check_ins(&mut b, &ins, &a.code[0], &pre, &mut agg, core, "C04 operand resolution (source plane)", &|c| if c.starts_with("flag:") { None } else { Some(sig_for(&ins, &m, kind, c).replacen("ea:", "ea:src:", 1)) });
+            loc.evals += 1;
+            *loc.counters.entry("source-plane operand forms executed").or_insert(0) += 1;
+            loc.distinct.insert(fnv64(format!("src|{}|{}|{}", m.shape(), kind, out.alt).as_bytes()));
+            if j == 33 && st == 1 {
+                rep.sample(format!("source `{}` -> ir `{}`", ins.src(&mut Spell::plain()), a.code[0]));
+            }
+        }
+        agg.flush(rep);
+        loc.flush(rep);
+    });
+}
+
 /// data-label operands with DS != 0 and label offsets up to 0xFFFF
 fn run_labels(rep: &Report, n: usize, core: bool, seed: u64) {
     par_for(16, 1, |t| {
@@ -180,12 +239,14 @@ fn run_alias(rep: &Report) {
 
 pub fn run(rep: &Report) {
     run_forms(rep, 3, true, 0xC04);
+    run_source(rep, 4, true, 0xC04);
     run_labels(rep, 1536, true, 0xC04);
     run_alias(rep);
     let t = rep.thorough();
     run_forms(rep, if t { 400 } else { 6 }, false, rep.seed ^ 0x40);
+    run_source(rep, if t { 300 } else { 6 }, false, rep.seed ^ 0x42);
     run_labels(rep, if t { 200_000 } else { 4000 }, false, rep.seed ^ 0x41);
     rep.floor("operand-form evaluations", rep.evals(), 100_000);
 }
 
-pub const RULE: &str = "all 5 addressing shapes x every base/index register choice x {no override, ES, CS, SS, DS} (85 shapes) x a displacement set incl. 0, +-1, 0x7FFF, -0x8000 x 11 access kinds (byte/word loads, stores of registers and immediates, read-modify-writes, LEA) from hostile register/segment states (sums crossing 0xFFFF and 0xFFFFF) with a position-dependent memory pattern and whole-memory diff; data-label operands at offsets 0..0xFFFF with arbitrary DS; byte-register aliasing over all 2^16 parent values. Distinct = (shape, access kind, offset-sum form, physical wrap, accept-set member).";
+pub const RULE: &str = "all 5 addressing shapes x every base/index register choice x {no override, ES, CS, SS, DS} (85 shapes) x a displacement set incl. 0, +-1, 0x7FFF, -0x8000 x 11 access kinds (byte/word loads, stores of registers and immediates, read-modify-writes, LEA) from hostile register/segment states (sums crossing 0xFFFF and 0xFFFFF) with a position-dependent memory pattern and whole-memory diff, on the instruction plane (hand-rendered IR) and on the source plane (assembler syntax through the real Preprocessor, random case/radix/white space, based-indexed form with and without displacement); data-label operands at offsets 0..0xFFFF with arbitrary DS; byte-register aliasing over all 2^16 parent values. Distinct = (shape, access kind, offset-sum form, physical wrap, accept-set member).";
